@@ -14,3 +14,4 @@ import XzVerif.Props.C05
 #print axioms Props.C05.extract_of_prefix
 #print axioms Props.C05.batch_eq
 #print axioms Props.C05.C05_lazy_lzma2_prefix_never_clean
+#print axioms Props.C05.C05_lazy_xz_prefix_never_clean
